@@ -72,6 +72,9 @@ stats! {
     disjoint_overlap_panics,
     disjoint_tuples,
     disjoint_big,
+    relocations,
+    twin_queries,
+    shared_start_queries,
     overflow_probes,
     overflow_probes_after_removal,
     overflow_entry_points,
